@@ -1582,7 +1582,7 @@ class Parameter(_ParameterBase):
 
             def update_link():
                 if ref is not None:
-                    self.owner.param._update_ref(name, ref)
+                    self.owner.param._update_ref(name, ref, is_async)
                 elif name in obj._param__private.refs and not syncing:
                     # a plain value ends the link for good, including the
                     # watchers kept on its sources
@@ -2198,9 +2198,11 @@ class Parameters:
                 owner.param._watch(self_._sync_refs, list(set(pnames)), precedence=-0.5)
             ))
 
-    def _update_ref(self_, name, ref):
+    def _update_ref(self_, name, ref, is_async=False):
         param_private = self_.self._param__private
-        if name in param_private.async_refs:
+        # (the task of an asynchronous reference was scheduled, and took the
+        # place of the previous one, when the reference was resolved)
+        if not is_async and name in param_private.async_refs:
             param_private.async_refs.pop(name).cancel()
         for _, watcher in param_private.ref_watchers:
             dep_obj = watcher.cls if watcher.inst is None else watcher.inst
@@ -2232,7 +2234,7 @@ class Parameters:
             if new_val is Skip or new_val is Undefined:
                 continue
             elif is_async:
-                async_executor(partial(self_._async_ref, pname, new_val))
+                self_._schedule_async_ref(pname, new_val)
                 continue
 
             updates[pname] = new_val
@@ -2253,33 +2255,49 @@ class Parameters:
         except Skip:
             value = Undefined
         if is_async:
-            async_executor(partial(self_._async_ref, pobj.name, value))
+            self_._schedule_async_ref(pobj.name, value)
             value = None
         return ref, deps, value, is_async
 
-    async def _async_ref(self_, pname, awaitable):
-        if not self_.self._param__private.initialized:
-            async_executor(partial(self_._async_ref, pname, awaitable))
-            return
+    def _schedule_async_ref(self_, pname, awaitable):
+        """
+        Schedule the evaluation of an asynchronous reference. The task is
+        registered (and the one it supersedes cancelled) right away, not when
+        it first runs: whatever is assigned to the parameter next - another
+        reference or a plain value - finds and cancels it, however the loop
+        interleaves the tasks.
+        """
+        async_refs = self_.self._param__private.async_refs
+        if pname in async_refs:
+            async_refs.pop(pname).cancel()
+        task = async_executor(partial(self_._async_ref, pname, awaitable))
+        if task is not None:
+            async_refs[pname] = task
 
+    async def _async_ref(self_, pname, awaitable):
         import asyncio
         current_task = asyncio.current_task()
-        running_task = self_.self._param__private.async_refs.get(pname)
-        if running_task is None:
-            self_.self._param__private.async_refs[pname] = current_task
-        elif current_task is not running_task:
-            self_.self._param__private.async_refs[pname].cancel()
+        async_refs = self_.self._param__private.async_refs
+        if not self_.self._param__private.initialized:
+            task = async_executor(partial(self_._async_ref, pname, awaitable))
+            if async_refs.get(pname) is current_task and task is not None:
+                async_refs[pname] = task
+            return
+
         try:
+            # The reference is awaited outside the _syncing scope: while it is
+            # pending an assignment to the parameter is an override, not a sync.
             if isinstance(awaitable, types.AsyncGeneratorType):
                 async for new_obj in awaitable:
                     with _syncing(self_.self, (pname,)):
                         self_.update({pname: new_obj})
             else:
+                try:
+                    new_obj = await awaitable
+                except Skip:
+                    return
                 with _syncing(self_.self, (pname,)):
-                    try:
-                        self_.update({pname: await awaitable})
-                    except Skip:
-                        pass
+                    self_.update({pname: new_obj})
         finally:
             # Ensure we clean up but only if the task matches the currrent task
             if self_.self._param__private.async_refs.get(pname) is current_task:
